@@ -12,9 +12,20 @@ use super::LangSet;
 
 pub const BASE_THRESHOLDS: [f64; 9] = [0.0, 1.0, 3.0, 5.0, 10.0, 25.0, f64::INFINITY, f64::NAN, -1.0];
 
-fn small(o: &Occ, t: f64) -> bool {
+/// is this occurrence an ordinal?  Read from the digit form (does it end in one of the language's ordinal markers), not
+/// from the flag the library reports: the policy must not follow a flag that is itself wrong (a fraction such as es
+/// `1/12` carries a marker but is no ordinal).  A text that does not parse as a numeral falls back on the flag (that is
+/// C06's finding, not this property's).
+fn is_ord(code: &str, o: &Occ) -> bool {
+    match super::c06::parse_numeral(code, &o.text) {
+        Ok(n) => !n.suffix.is_empty(),
+        Err(_) => o.is_ordinal,
+    }
+}
+
+fn small(code: &str, o: &Occ, t: f64) -> bool {
     let one_digit = o.text.len() == 1 && o.text.as_bytes()[0].is_ascii_digit();
-    (one_digit || o.is_ordinal) && o.value < t
+    (one_digit || is_ord(code, o)) && o.value < t
 }
 
 #[derive(Clone, Copy, PartialEq, Debug)]
@@ -135,7 +146,7 @@ pub fn check_stream(ls: &LangSet, code: &str, toks: &[IdTok], model: bool) -> St
         }
         // U4: every non-small number is reported
         for o in &f0 {
-            if !small(o, t) && !contains(ft, o) {
+            if !small(code, o, t) && !contains(ft, o) {
                 v.failure = Some(format!("U4: {} is not small at threshold {} (multi-digit cardinal, decimal, or value >= threshold) but is not reported", o.show(), t));
                 return v;
             }
@@ -143,11 +154,11 @@ pub fn check_stream(ls: &LangSet, code: &str, toks: &[IdTok], model: bool) -> St
         // policy model
         if model && !t.is_nan() {
             for (i, o) in f0.iter().enumerate() {
-                if !small(o, t) {
+                if !small(code, o, t) {
                     continue;
                 }
                 let link = |a: usize, b: usize| -> Option<bool> {
-                    if f0[a].is_ordinal != f0[b].is_ordinal {
+                    if is_ord(code, &f0[a]) != is_ord(code, &f0[b]) {
                         return Some(false);
                     }
                     match gaps[a] {
